@@ -26,12 +26,20 @@ from sim.core import OK, VIOLATION, DISCARD, sub_rng
 STEP_BUDGET = 60_000
 OBS_LIMIT = 60
 
-COPY_OPS = [":", "D", "Ḃ", "→a", "←a", "→b", "←b", "£", "¥", "⅛", "¾", "W", "\"", "w", "?", "$", "Ȯ", "^", "_"]
+COPY_OPS = [":", "D", "Ḃ", "→a", "←a", "→b", "←b", "£", "¥", "⅛", "¾", "W", "\"", "w", "?", "$", "Ȯ", "^", "_",
+            "λ2|_ _ n;†", "λ2|+ n;†", "λ2|$ _ n $ _;†", "λ3|_ _ _ n;†", "λ_ n;†", "λ› n $ _;†"]
+# the context value `n` of a lambda denotes the call's arguments whatever the body did to its stack meanwhile:
+# text -> (arity, "list" = n is the list of arguments, top first | "arg" = n is the single argument itself)
+CTX_OPS = {"λ2|_ _ n;†": (2, "list"), "λ2|+ n;†": (2, "list"), "λ2|$ _ n $ _;†": (2, "list"), "λ3|_ _ _ n;†": (3, "list"),
+           "λ_ n;†": (1, "arg"), "λ› n $ _;†": (1, "arg")}
+# pairs of scalar -> list applications whose results may share hidden state (caches, memo tables)
+RELATED = [("5 2 τ", "5 N 2 τ"), ("6 K", "6 N K"), ("6 b", "6 N b"), ("3 ɾ", "3 N ɾ"), ("12 Ǐ", "12 N Ǐ"), ("5 2 τ", "5 2 τ"),
+           ("⟨⟩ Þr", "⟨⟩ Þr"), ("7 f", "7 N f"), ("3 ʀ", "3 ʀ"), ("4 3 τ", "4 N 3 τ"), ("⟨⟩ Ṫ", "⟨⟩ Ṫ"), ("2 3 r", "3 2 r")]
 # Q exits; ¨U is a no-op offline; □ reads stdin lines; ¨… does not compile; ¢ øV øo loop on C-level string
 # doubling that neither the step clock nor the size guard at pop() can see
 EXCLUDED = {"Q", "¨U", "□", "¨…", "¢", "øV", "øo"}
 FN_POOL = ["λ›;", "λ2*;", "λ₂;", "λ2|+;", "λ:;", "λd;", "λ1;", "λ2|$;", "λN;", "λh;"]
-STRUCT_ELEMS = ["ƛ›;", "ƛd;", "'₂;", "'1;", "µN;", "v›", "vd", "ƒ+", "ɖ+", "⁽›M", "⁽₂F", "( n )", "( n ⅛ )",
+STRUCT_ELEMS = ["@f:1| 0 9 Ȧ ; @f;", "@g:a| ←a Ṙ ; @g;", "@h:1| : J ; @h;", "( i | ←i 1 J _ )", "ƛ›;", "ƛd;", "'₂;", "'1;", "µN;", "v›", "vd", "ƒ+", "ɖ+", "⁽›M", "⁽₂F", "( n )", "( n ⅛ )",
                 "ƛ:Ṙ;", "ƛ0 9 Ȧ;", "ƛ1 J;", "λ2|+; Ḟ", "⁽› ẇ", "‡›d M", "ƛn;", "~₂", "₌Lh", "₍ht"]
 
 
@@ -157,8 +165,15 @@ class C10(core.Check):
         if pool_kind == "recipes":
             # share, transform one reference, share again, transform again (often with the same recipe), observe
             fav = rs.choice(RECIPES)
+            pair = rs.choice(RELATED) if rs.random() < 0.3 else None
             for _ in range(rs.randint(2, 6)):
                 x = rs.random()
+                if pair is not None and x < 0.6:
+                    # a scalar -> list application, keep the result somewhere, then the related application
+                    events.append(["apply", [pair[0]]])
+                    events.append(["copy", rs.choice(["→a", "£", "⅛", ":", "w"])])
+                    events.append(["apply", [pair[1]]])
+                    continue
                 if x < 0.35:
                     for op in rs.choice(SHARE_OPS).split(" "):  # atomic copy ops keep their known semantics
                         events.append(["copy", op])
@@ -189,8 +204,10 @@ class C10(core.Check):
                 events.append(["observe", rs.randint(0, 30)])
             else:
                 events.append(["close", rs.randint(0, 30)])
+        # interpreter settings that change how elements treat their arguments (command-line flags r, R, M)
+        ctxflags = rw.choice([[], [], [], [], ["r"], ["R"], ["M"], ["r", "R"]])
         return dict(value=val, repr=rep, nested_lazy=nested_lazy, place=place, events=events,
-                    final_order=rs.randint(0, 10 ** 6))
+                    final_order=rs.randint(0, 10 ** 6), ctxflags=ctxflags)
 
     # ------------------------------------------------------------------------------ building
     def build(self, v, top, rep, nested_lazy, pre=1):
@@ -228,6 +245,13 @@ class C10(core.Check):
         LL = self.LazyList
         w = world.World(inputs=[])
         ctx, ns = w.ctx, w.ns
+        for f_ in case.get("ctxflags", []):
+            if f_ == "r":
+                ctx.reverse_flag = True
+            elif f_ == "R":
+                ctx.number_as_range = True
+            elif f_ == "M":
+                ctx.range_start = 0
         V = self.build(case["value"], True, case["repr"], case.get("nested_lazy", False))
         model_V = self.norm(case["value"])
         log, cov, faults = [], set(), {}
@@ -426,10 +450,14 @@ class C10(core.Check):
                         expect_top = [snap(x) for x in ctx.global_array]
                     elif text == "W":
                         expect_top = [snap(x) for x in w.stack]
-                    elif text == "\"" and len(w.stack) >= 2:
+                    elif text == "\"" and len(w.stack) >= 2 and not ctx.reverse_flag:
                         expect_top = [snap(w.stack[-2]), snap(w.stack[-1])]
                     elif text == "w" and len(w.stack) >= 1:
                         expect_top = [snap(w.stack[-1])]
+                    elif text in CTX_OPS and len(w.stack) >= CTX_OPS[text][0] and not ctx.reverse_flag:
+                        ar_, kind_ = CTX_OPS[text]
+                        if kind_ == "list":
+                            expect_top = [snap(x) for x in w.stack[-ar_:][::-1]]
                 try:
                     code = w.compile_program(text)
                 except Exception as e:
@@ -446,11 +474,12 @@ class C10(core.Check):
                     cov.add("copy:" + text)
                 discover_all(eno)
                 # copy-op semantics: which new objects denote the same value as which old ones
-                if kind == "copy" and text in (":", "D", "Ḃ") and before_top:
+                if kind == "copy" and (text in (":", "D", "Ḃ") or (CTX_OPS.get(text, (0, ""))[1] == "arg"
+                                                                       and not ctx.reverse_flag)) and before_top:
                     src = before_top[-1]
                     rs_ = by_id.get(id(src))
                     if rs_ is not None:
-                        k = {":": [-2, -1], "D": [-3, -2, -1], "Ḃ": [-2]}[text]
+                        k = {":": [-2, -1], "D": [-3, -2, -1], "Ḃ": [-2]}.get(text, [-1])
                         for pos in k:
                             if len(w.stack) >= -pos:
                                 o = w.stack[pos]
@@ -459,7 +488,7 @@ class C10(core.Check):
                                     old = ro.cls
                                     ro.cls = rs_.cls
                                     classes.pop(old, None)
-                if expect_top is not None and '"?"' in core.jdump(expect_top):
+                if expect_top is not None and ('"?"' in core.jdump(expect_top) or '["f",' in core.jdump(expect_top)):
                     expect_top = None  # something that is not a Vyxal value (None, a Python object) is on the stack
                 if expect_top is not None and w.stack and isinstance(w.stack[-1], (list, LL)):
                     rt = by_id.get(id(w.stack[-1]))
@@ -580,6 +609,8 @@ class C10(core.Check):
             yield dict(case, repr="eager")
         if case.get("nested_lazy"):
             yield dict(case, nested_lazy=False)
+        if case.get("ctxflags"):
+            yield dict(case, ctxflags=[])
         val = case["value"]
         for i in range(len(val)):
             if len(val) > 1:
